@@ -39,6 +39,10 @@ def run(ctx):
     for w in ((2,) if ctx.quick else (2, 3, 4)):
         jobs += [('tex_%s_%s_w%d' % (tag, a[0], w), src, a, w, 200, False, 300000) for tag, src, a in exits]
     ctx.stats['try_exit_programs'] = len(exits)
+    pre = gen_special.preempt_programs()
+    for un in (False, True):
+        jobs += [('%s_%s_%d' % (tag, a[0], un), src, a, 2, 200, un, 300000) for tag, src, a in pre]
+    ctx.stats['preempt_programs'] = len(pre)
     tally, bad, res = suites.differential(ctx, jobs, None, label='time-travel')
     bt = sum(1 for r in res.values() if 'src' in r and r['src'].backtracks > 0)
     ctx.stats['runs_with_backtracking'] = bt
